@@ -101,10 +101,21 @@ def corpus():
                 src = open(path).read()
             except OSError:
                 continue
-            for m in re.finditer(r'validate_(?:identity|all)\(\s*"((?:[^"\\\n]|\\.)+)"', src):
-                text = m.group(1)
-                if "\\" not in text and len(text) < 400:
-                    out.append((d, text))
+            # first argument of every validate_identity / validate_all call, when it is a constant string (implicit concatenation
+            # and triple-quoted literals included): ast, not a regex, so multi-part literals come out whole
+            import ast
+
+            try:
+                tree = ast.parse(src)
+            except SyntaxError:
+                continue
+            for node in ast.walk(tree):
+                if isinstance(node, ast.Call) and isinstance(node.func, ast.Attribute) and node.func.attr in ("validate_identity", "validate_all") and node.args:
+                    a0 = node.args[0]
+                    if isinstance(a0, ast.Constant) and isinstance(a0.value, str):
+                        text = a0.value.strip()
+                        if text and len(text) < 1500:
+                            out.append((d, text))
         _CORPUS = out
     return _CORPUS
 
